@@ -878,6 +878,12 @@ class FragmentSender(object):
         else:
             self.acks[index] = success
 
+            # report to the user once every fragment is resolved
+            if self.user_callback and all(ack is not None for ack in self.acks):
+                callback = self.user_callback
+                self.user_callback = None
+                callback(all(self.acks))
+
     @staticmethod
     def parsePayload(payload):
         hdr = payload[:6]
